@@ -82,7 +82,18 @@ pub trait PostConversionLinter {
         Ok(())
     }
 
-    fn visit_dim(&mut self, _dim_list: &DimList) -> Result<(), LintErrorPos> {
+    fn visit_dim(&mut self, dim_list: &DimList) -> Result<(), LintErrorPos> {
+        // the bounds of array dimensions are expressions too
+        for dim_var_pos in &dim_list.variables {
+            if let DimType::Array(array_dimensions, _) = dim_var_pos.element.var_type() {
+                for ArrayDimension { lbound, ubound } in array_dimensions {
+                    if let Some(lbound) = lbound {
+                        self.visit_expression(lbound)?;
+                    }
+                    self.visit_expression(ubound)?;
+                }
+            }
+        }
         Ok(())
     }
 
@@ -157,7 +168,9 @@ pub trait PostConversionLinter {
         assignment: &Assignment,
         _name_pos: Position,
     ) -> Result<(), LintErrorPos> {
-        let (_, v) = assignment.into();
+        let (left, v) = assignment.into();
+        // the left side can contain expressions too (array indices)
+        self.visit_nested_expressions(left)?;
         self.visit_expression(v)
     }
 
@@ -235,6 +248,29 @@ pub trait PostConversionLinter {
 
     fn visit_expressions(&mut self, args: &Expressions) -> Result<(), LintErrorPos> {
         args.iter().try_for_each(|e| self.visit_expression(e))
+    }
+
+    /// Visits the expressions directly nested in the given expression:
+    /// operands, the expression inside parenthesis, call arguments,
+    /// array indices and the left side of a property.
+    ///
+    /// Linters that inspect expressions should call this method from
+    /// `visit_expression`, so that no nested expression is left unchecked.
+    fn visit_nested_expressions(&mut self, e: &Expression) -> Result<(), LintErrorPos> {
+        match e {
+            Expression::BinaryExpression(_, left, right, _) => {
+                self.visit_expression(left)?;
+                self.visit_expression(right)
+            }
+            Expression::UnaryExpression(_, child) | Expression::Parenthesis(child) => {
+                self.visit_expression(child)
+            }
+            Expression::FunctionCall(_, args)
+            | Expression::BuiltInFunctionCall(_, args)
+            | Expression::ArrayElement(_, args, _) => self.visit_expressions(args),
+            Expression::Property(left_side, _, _) => self.visit_nested_expressions(left_side),
+            _ => Ok(()),
+        }
     }
 
     fn visit_print(&mut self, print: &Print) -> Result<(), LintErrorPos> {
